@@ -92,7 +92,7 @@ def from_numpy(
             array = array.reshape(1)
 
         if array.dtype.kind == "S":
-            asbytes = array.reshape(-1)
+            asbytes = numpy.ascontiguousarray(array.reshape(-1))
             itemsize = asbytes.dtype.itemsize
             starts = numpy.arange(0, len(asbytes) * itemsize, itemsize, dtype=np.int64)
             stops = starts + numpy.char.str_len(asbytes)
